@@ -107,7 +107,7 @@ def ensure_built(targets=None):
             rc, log = sh(["coq_makefile", "-f", "_CoqProject", "-o", "Makefile"], cwd=COQ)
             if rc != 0:
                 return False, log
-        rc, log = sh(["timeout", "1500", "make", "-j16", "-k"] + list(targets or []), cwd=COQ, timeout=1600)
+        rc, log = sh(["timeout", "2400", "make", "-j16", "-k", "COQC=timeout 1200 coqc"] + list(targets or []), cwd=COQ, timeout=2500)
         return rc == 0, log
 
 
